@@ -1008,3 +1008,25 @@ crate::harnesses! {
     #[cfg_attr(kani, kani::unwind(6))] fn c16_ptypes_u256() { ptypes_u256() }
     #[cfg_attr(kani, kani::unwind(10))] fn c16_ptypes_u512() { ptypes_u512() }
 }
+
+/// NATIVE-ONLY registrations (never sent to CBMC, which needs minutes and gigabytes for them even at 8 bits): bodies kept above
+/// without a Kani harness are executed by the native sweep (bounded: generated values).
+#[cfg(not(kani))]
+pub mod native {
+    use super::*;
+    crate::harnesses! {
+        fn c16n_bigint_to_w64() { bigint_to::<64, 1>() }
+        fn c16n_bigint_to_w65() { bigint_to::<65, 2>() }
+        fn c16n_bigint_to_w128() { bigint_to::<128, 2>() }
+        fn c16n_bigint_to_w192() { bigint_to::<192, 3>() }
+        fn c16n_bigint_to_w256() { bigint_to::<256, 4>() }
+        fn c16n_bigint_from_w8() { bigint_from::<8, 1>() }
+        fn c16n_bigint_from_w64() { bigint_from::<64, 1>() }
+        fn c16n_bigint_from_w65() { bigint_from::<65, 2>() }
+        fn c16n_bigint_from_w128() { bigint_from::<128, 2>() }
+        fn c16n_der_body_w8() { der_body::<8, 1>() }
+        fn c16n_der_body_w64() { der_body::<64, 1>() }
+        fn c16n_der_body_w65() { der_body::<65, 2>() }
+        fn c16n_der_body_w128() { der_body::<128, 2>() }
+    }
+}
